@@ -497,10 +497,10 @@ func (c *Ctx) beginEexecTable() {
 		}
 	}
 	type outcome struct {
-		skipped  bool   // the first byte was skipped as white space
-		mode     int64  // value stored into the mode field
-		peeked   int64  // number of bytes asked of the look-ahead
-		consumed int    // byte reads after the decision
+		skipped  bool  // the first byte was skipped as white space
+		mode     int64 // value stored into the mode field
+		peeked   int64 // number of bytes asked of the look-ahead
+		consumed int   // byte reads after the decision
 		why      string
 	}
 	run := func(first byte, window string) outcome {
